@@ -6,7 +6,6 @@ import (
 	"encoding/json"
 	"errors"
 	"fmt"
-	"reflect"
 	"strconv"
 	"strings"
 
@@ -49,6 +48,9 @@ func (c *Converter) ExpandUpdates(ctx context.Context, updates []*sdcpb.Update, 
 // expandUpdate Expands the value, in case of json to single typed value updates
 func (c *Converter) ExpandUpdate(ctx context.Context, upd *sdcpb.Update, includeKeysAsLeaf bool) ([]*sdcpb.Update, error) {
 	upds := make([]*sdcpb.Update, 0)
+	if upd.GetValue() == nil {
+		return nil, fmt.Errorf("update of %s carries no value", ToXPath(upd.GetPath(), false))
+	}
 	if includeKeysAsLeaf {
 		// expand update path if it contains keys
 		intUpd, err := c.ExpandUpdateKeysAsLeaf(ctx, upd)
@@ -297,7 +299,7 @@ func (c *Converter) ExpandContainerValue(ctx context.Context, p *sdcpb.Path, jv 
 						list = append(list, tvYangType)
 					}
 				default:
-					return nil, fmt.Errorf("leaflist %s expects array as input, but %v of type %v was given", np.String(), x, reflect.TypeOf(x).Name())
+					return nil, fmt.Errorf("leaflist %s expects array as input, but %v of type %T was given", np.String(), x, x)
 				}
 
 				upd := &sdcpb.Update{
